@@ -82,6 +82,9 @@ func (w *World) verifyFunc(fn *ssa.Function, ct *Contract, mode execMode) *FuncR
 		if ct != nil {
 			e := &env{vars: map[string]Val{}}
 			for _, r := range ct.requires {
+				if ex.requireLocks(st, r.expr, e) {
+					continue
+				}
 				st.assume(ex.evalBool(st, r.expr, e))
 			}
 		}
@@ -142,14 +145,22 @@ func (ex *Exec) atExit(st *State, res Val) {
 		ob := ex.obl(ex.rootName+"/vacuity", "vacuity")
 		ob.VCs = append(ob.VCs, VC{pc: append([]string(nil), st.pc...), goal: "false", note: "reachability canary"})
 	}
-	if len(st.locks) > 0 {
-		ex.record(st, ex.rootName+"/lockorder:held-at-return", "lockorder", "false", "mutex still held at return: "+strings.Join(st.locks, ","))
+	if len(st.locks) != ex.preLocks {
+		ex.record(st, ex.rootName+"/lockorder:held-at-return", "lockorder", "false", "lock set at return differs from the lock set at entry: "+strings.Join(st.locks, ","))
 	}
 	if ct == nil {
 		return
 	}
 	e := &env{vars: map[string]Val{}, result: &res}
 	ex.bindNamedResults(ex.root, e, res)
+	for _, ga := range ct.ghostExit {
+		sort, ok := ex.w.ghostVars[ga.name]
+		if !ok {
+			panic(subsetErr{"contract-binding: undeclared ghost variable " + ga.name})
+		}
+		v := ex.eval(st, ga.expr, e)
+		st.setRegion("G!"+ga.name, sort, ex.asTerm(v))
+	}
 	for _, en := range ct.ensures {
 		ex.proveEnsures(st, en, e)
 	}
@@ -225,7 +236,7 @@ func (ex *Exec) initGhost(st *State) {
 		"G!ctr": arr("String", arr("String", "Int")), "G!ctrsum": "Int", "G!ctrl1": arr("Int", "String"), "G!ctrl2": arr("Int", "String"),
 		"G!sentlen": ii, "G!recvlen": ii, "G!sentstamp": arr("Int", ii), "G!closed": arr("Int", "Bool"), "G!cancelled": arr("Int", "Bool"),
 		"G!chancap": ii, "G!clock": "Int", "G!dyn": ii, "G!wraps": ii, "G!jsonof": ii, "I!String": arr("Int", "String"), "I!Int": ii, "I!Bool": arr("Int", "Bool"),
-		"G!donechan": ii, "G!ctxerr": ii,
+		"G!donechan": ii, "G!ctxerr": ii, "G!out!#src": ii, "G!out!#by": ii,
 	} {
 		st.region(name, sort)
 	}
@@ -277,4 +288,18 @@ func (ex *Exec) recordInputs(st *State, name string, v Val) {
 	case KSlice:
 		ex.inputTerms[name+".#len"] = v.Fs[2].T
 	}
+}
+
+// requireLocks: a precondition holds(obj,"f") puts the lock into the initial lock set.
+func (ex *Exec) requireLocks(st *State, n *node, e *env) bool {
+	if n.op == "call" && n.args[0].op == "ident" && n.args[0].name == "holds" && len(n.args) == 3 && n.args[2].op == "lit-str" {
+		obj := ex.eval(st, n.args[1], e)
+		if obj.Typ == nil {
+			return false
+		}
+		st.locks = append(st.locks, lockTag(derefType(obj.Typ), n.args[2].name)+"@"+obj.T)
+		ex.preLocks = len(st.locks)
+		return true
+	}
+	return false
 }
